@@ -197,7 +197,7 @@ def run(ctx):
     from .. import unitrules
     unitrules.apply(ctx, "C04-R9",
                     lambda sh: sh.startswith("fitting."),
-                    kinds={"call"}, report_rules=set(),
+                    kinds={"call", "sink"}, report_rules=set(),
                     what="contract sites in fitting.py", floor=2)
     from .. import precision
     precision.rule(
